@@ -47,10 +47,16 @@ H_OPTS = [[], [], [[12, "2a"]], [[4, "6162"]], [[12, "-"], [14, "3c"]]]
 
 # ----------------------------------------------------------------------------- payload specs
 
+_PAT = {}
+
+
 def mk_bytes(spec):
     if isinstance(spec, list):
         _, n, a, b = spec
-        return bytes((a + b * i) % 256 for i in range(n))
+        r = _PAT.get((n, a, b))
+        if r is None:
+            r = _PAT[(n, a, b)] = bytes((a + b * i) % 256 for i in range(n))
+        return r
     return b"" if spec == "-" else bytes.fromhex(spec)
 
 
@@ -98,40 +104,44 @@ def run_script(aiocoap, script, direct=False):
         T = U.ticks_of(ts.pop())
         keyids = {}
         toks, outs, obs = [], [], []
-        for i, st in enumerate(script["steps"]):
-            w.loop.advance(st["dt"])
-            ep = script["eps"][st["ep"]]
-            epd = (tuple(ep[0]), None if ep[1] is None else bytes.fromhex(ep[1]), ep[2], ep[3])
-            payload = mk_bytes(st["payload"])
-            msg = w.incoming(epd, st["code"], hexopts(st["opts"]), st["b1"], st["b2"], payload, i + 1)
-            rid = keyids.setdefault(msg.remote.blockwise_key, len(keyids))
-            hcode, hopts, hspec = st["h"]
-            hpayload = mk_bytes(hspec)
-            ppay = bytes(msg.payload)
-            pspec = spec_str(st["payload"]) if ppay == payload else U.hexs(ppay)
-            toks.append(",".join([
-                str(st["res"]), str(st["dt"]), str(st["asm"]), str(rid),
-                str(msg.remote.maximum_payload_size), str(msg.remote.maximum_block_size_exp),
-                str(int(msg.code)), U.blk_raw(msg, 27), U.blk_raw(msg, 23),
-                U.opts_str(U.opts_of(msg)), pspec,
-                str(hcode), U.opts_str(hexopts(hopts)), spec_str(hspec)]))
-            call = w.request_direct if direct else w.request
-            resp, exc, seen = call(st["res"], bool(st["asm"]), msg, (hcode, hexopts(hopts), hpayload))
-            rp = bytes(resp.payload)
-            if len(seen) == 0:
-                s = "-"
-            else:
-                c, b1, b2, so, sp = seen[0]
-                s = ("H" if len(seen) == 1 else f"H{len(seen)}") + \
-                    f"~{c}~{U.blk_str(b1)}~{U.blk_str(b2)}~{U.opts_str(so)}~{U.hexs(sp)}"
-            outs.append(f"{int(resp.code)}|{U.blk_str(resp.opt.block1)}|{U.blk_str(resp.opt.block2)}|"
-                        f"{U.opts_str(U.opts_of(resp))}|{'-' if exc else U.hexs(rp)}|{s}")
-            obs.append({
-                "code": int(resp.code),
-                "b1": None if resp.opt.block1 is None else tuple(int(x) for x in resp.opt.block1),
-                "b2": None if resp.opt.block2 is None else tuple(int(x) for x in resp.opt.block2),
-                "opts": U.opts_of(resp), "payload": rp, "exc": exc,
-                "seen": [(c, sp, so) for (c, _b1, _b2, so, sp) in seen]})
+
+        async def whole():
+            for i, st in enumerate(script["steps"]):
+                await w.loop.aadvance(st["dt"])
+                ep = script["eps"][st["ep"]]
+                epd = (tuple(ep[0]), None if ep[1] is None else bytes.fromhex(ep[1]), ep[2], ep[3])
+                payload = mk_bytes(st["payload"])
+                msg = w.incoming(epd, st["code"], hexopts(st["opts"]), st["b1"], st["b2"], payload, i + 1)
+                rid = keyids.setdefault(msg.remote.blockwise_key, len(keyids))
+                hcode, hopts, hspec = st["h"]
+                hpayload = mk_bytes(hspec)
+                ppay = bytes(msg.payload)
+                pspec = spec_str(st["payload"]) if ppay == payload else U.hexs(ppay)
+                toks.append(",".join([
+                    str(st["res"]), str(st["dt"]), str(st["asm"]), str(rid),
+                    str(msg.remote.maximum_payload_size), str(msg.remote.maximum_block_size_exp),
+                    str(int(msg.code)), U.blk_raw(msg, 27), U.blk_raw(msg, 23),
+                    U.opts_str(U.opts_of(msg)), pspec,
+                    str(hcode), U.opts_str(hexopts(hopts)), spec_str(hspec)]))
+                call = w.request_direct if direct else w.request
+                resp, exc, seen = await call(st["res"], bool(st["asm"]), msg, (hcode, hexopts(hopts), hpayload))
+                rp = bytes(resp.payload)
+                if len(seen) == 0:
+                    s = "-"
+                else:
+                    c, b1, b2, so, sp = seen[0]
+                    s = ("H" if len(seen) == 1 else f"H{len(seen)}") + \
+                        f"~{c}~{U.blk_str(b1)}~{U.blk_str(b2)}~{U.opts_str(so)}~{U.hexs(sp)}"
+                outs.append(f"{int(resp.code)}|{U.blk_str(resp.opt.block1)}|{U.blk_str(resp.opt.block2)}|"
+                            f"{U.opts_str(U.opts_of(resp))}|{'-' if exc else U.hexs(rp)}|{s}")
+                obs.append({
+                    "code": int(resp.code),
+                    "b1": None if resp.opt.block1 is None else tuple(int(x) for x in resp.opt.block1),
+                    "b2": None if resp.opt.block2 is None else tuple(int(x) for x in resp.opt.block2),
+                    "opts": U.opts_of(resp), "payload": rp, "exc": exc,
+                    "seen": [(c, sp, so) for (c, _b1, _b2, so, sp) in seen]})
+
+        w.loop.run_until_complete(whole())
         return f"C06 R {T} " + " ".join(toks), " ".join(outs), obs
     finally:
         w.close()
@@ -401,9 +411,9 @@ def gen_eps(rng):
     return eps
 
 
-def len_around(rng, size, mps):
+def len_around(rng, size, mps, multi=False):
     c = rng.randrange(12)
-    k = rng.choice([1, 1, 2, 2, 3, 4])
+    k = rng.choice([2, 2, 3, 3, 4, 5] if multi else [1, 1, 2, 2, 3, 4])
     if c < 6:
         return max(0, k * size + rng.choice([-1, 0, 1]))
     if c < 7:
@@ -414,10 +424,10 @@ def len_around(rng, size, mps):
 
 
 def idle(rng, T):
-    c = rng.randrange(20)
-    if c < 12:
+    c = rng.randrange(40)
+    if c < 33:
         return rng.choice([0, 0, 1, 2, 5, 1024])
-    if c < 17:
+    if c < 38:
         return rng.choice([T - 1, T, T + 1, 2 * T - 1, 2 * T, 2 * T + 1])
     return rng.choice([T // 2, T + T // 2, 3 * T, T // 3])
 
@@ -510,7 +520,7 @@ def gen_script(rng, T, big=False):
         # ---- upload side
         k = rng.randrange(20)
         if not uploading or k < 2:
-            L = len_around(rng, size, c.mps)
+            L = len_around(rng, size, c.mps, multi=True)
             c.up = [pat(L, rng.randrange(256), rng.choice([1, 5, 11])), 0]
             kind = "u_start"
         elif k < 13:
@@ -703,12 +713,14 @@ def run_td(aiocoap, T, ops):
                     refs[op[2]][0] = op[3]      # in-place mutation of the stored object
                 return "ok"
             return "ok"
-        for op in ops:
-            loop.advance(op[1])
-            try:
-                out.append(loop.run_until_complete(do(op)))
-            except Exception as e:
-                out.append(f"exception:{type(e).__name__}")
+        async def whole():
+            for op in ops:
+                await loop.aadvance(op[1])
+                try:
+                    out.append(await do(op))
+                except Exception as e:
+                    out.append(f"exception:{type(e).__name__}")
+        loop.run_until_complete(whole())
         items = ",".join(f"{k}={v[0]}" for k, v in sorted(td._items.items()))
         return " ".join(out) + " |" + items + (" |t" if td._timeout is not None else " |n")
     finally:
@@ -760,12 +772,14 @@ def oracle_td(T, ops, out):
 def gen_td(rng):
     T = rng.choice([1, 2, 7, 10])
     ops = []
+    live = []
     for _ in range(rng.randrange(3, 30)):
         c = rng.randrange(10)
-        dt = rng.choice([0, 0, 1, T - 1, T, T + 1, 2 * T - 1, 2 * T, 2 * T + 1, rng.randrange(3 * T + 1)])
-        k = rng.randrange(4)
+        dt = rng.choice([0, 0, 0, 1, 1, 2, T - 1, T, T + 1, 2 * T - 1, 2 * T, 2 * T + 1, rng.randrange(3 * T + 1)])
+        k = rng.choice(live) if live and rng.random() < 0.7 else rng.randrange(4)
         if c < 3:
             ops.append(["s", dt, k, rng.randrange(100)])
+            live.append(k)
         elif c < 7:
             ops.append(["g", dt, k])
         elif c < 8:
@@ -883,7 +897,7 @@ def run(env, rep):
     rep.exhaustive_parts.append("szx 0..7 x body lengths k*size-1..k*size+1 for Block1 and Block2; idle times "
                                 "T-1..T+1, 2T-1..2T+1 x timer phase x keep-alive; maximum_payload_size edges; "
                                 "each component of the block key changed alone")
-    n = env.scale(1600, 20000)
+    n = env.scale(1200, 20000)
     for j in range(n):
         scripts.append(gen_script(env.rng, T, big=(j % 7 == 0)))
     cases, lines, impl = [], [], []
@@ -954,7 +968,7 @@ def run(env, rep):
     # ---- T: TimeoutDict
     tcases = [(c["T"], c["ops"]) for _, c in load_corpus("C06") if c.get("kind") == "T"]
     tcases += td_boundary()
-    for _ in range(env.scale(8000, 100000)):
+    for _ in range(env.scale(6000, 100000)):
         tcases.append(gen_td(env.rng))
     lines, impl, cases = [], [], []
     for (Tt, ops) in tcases:
